@@ -865,6 +865,30 @@ func (e *Env) evalCall(x ECall) (tval, error) {
 		fn := fmt.Sprintf("box!%d", tag)
 		e.vc().declFun(fn, e.l().layout(v.T), SInt)
 		return tval{T: anyT, C: []string{sInt(int64(tag)), app(fn, v.C...)}}, nil
+	case "as":
+		// as(x, "T"): the value of dynamic type T held by interface x (unspecified if x holds another type)
+		v, err := e.eval(x.Args[0])
+		if err != nil {
+			return tval{}, err
+		}
+		ts, ok := x.Args[1].(EStr)
+		if !ok || len(v.C) != 2 {
+			return tval{}, fmt.Errorf("as(x, \"type\") needs an interface value and a type name")
+		}
+		tag, ok := e.fr.eng.tagByName(ts.V)
+		if !ok {
+			return tval{}, fmt.Errorf("as: unknown type %s", ts.V)
+		}
+		var tt types.Type
+		for k, id := range e.fr.eng.tags {
+			if id == tag {
+				tt = e.fr.eng.tagTypes[k]
+			}
+		}
+		if tt == nil {
+			return tval{}, fmt.Errorf("as: unresolved type %s", ts.V)
+		}
+		return tval{T: tt, C: e.fr.eng.unbox(e.vc(), tt, v.C[1])}, nil
 	case "dynlen":
 		v, err := e.eval(x.Args[0])
 		if err != nil {
